@@ -140,7 +140,9 @@ func canonKey(k string) string {
 	}
 
 	if !strings.Contains(k, ":") && !strings.Contains(k, "#") {
-		if raw := base58.Decode(k); len(raw) == 32 {
+		// any key length: with P-256 agent keys the services write the marshalled key in base58 into IndyAgent blocks
+		// and CreateDestination turns it into the did:key spelling of the same bytes
+		if raw := base58.Decode(k); len(raw) >= 16 {
 			return fmt.Sprintf("raw:%x", raw)
 		}
 	}
@@ -508,6 +510,15 @@ func (w *World) cMsg(p *Packet) string {
 
 	// HandleInboundPeerDID comes first for every message type
 	if from := str("from"); strings.Contains(from, "initialState=") {
+		// under a DIDComm v2 envelope the key ids name DIDs and the sender is attributed by that DID, not through the
+		// key index the model's MInit dispatches on: such messages go to the direct oracle only
+		_, fok := kidDID(p.FromKey)
+		_, tok := kidDID(p.ToKey)
+
+		if fok || tok {
+			return ""
+		}
+
 		if doc := initialStateDoc(from); doc != nil {
 			return fmt.Sprintf("(MInit %s %d %d)", w.cDoc(absDoc(doc)), w.in.id("k:"+rawKey(p.FromKey)), w.in.id("k:"+rawKey(p.ToKey)))
 		}
@@ -533,10 +544,18 @@ func (w *World) cMsg(p *Packet) string {
 		return fmt.Sprintf("(MComplete DX %d %d)", w.th(p.Thread), w.th(decodedThid(p.Plain)))
 	case lcRequest:
 		cd, cdoc := legacyConn(p.Plain["connection"])
+		if cdoc == nil {
+			// a connection block the harness cannot read as a document (the service refuses the whole message when it
+			// cannot decode it, and abandons when the document is merely absent: the model has one `None`)
+			return ""
+		}
 
 		return fmt.Sprintf("(MRequest LC %d %d %d %d %s)", w.th(p.Thread), w.th(str("@id")), w.inv(p.PThid), w.did(cd), w.cODoc(absDoc(cdoc)))
 	case lcResponse:
 		cd, cdoc, signer := legacySigned(p.Plain["connection~sig"])
+		if cdoc == nil && cd != "" {
+			return "" // a signed document in a rendering the harness cannot read back
+		}
 
 		return fmt.Sprintf("(MResponse LC %d %d %d %s %d)", w.th(p.Thread), w.th(decodedThid(p.Plain)), w.did(cd), w.cODoc(absDoc(cdoc)), w.key(signer))
 	case lcAck:
